@@ -426,6 +426,26 @@ def L5(tier):
                 attrs = {i: {'estimate': 4, 'resource': 'A'} for i in lv}
                 yield Scenario(sched, True, A, mk_tasks(par, attrs), [], ext=[(50, dict(eattrs))],
                                ext_links=[(('e', 0), ('x', tgt))], layer='L5'), 'ext-pred-undated'
+    # external SUCCESSOR lacking dates (a task of another project that waits for a task / a summary of this one and has not been
+    # planned yet): no class of unschedulable input, calc must end with a schedule or a RuntimeError
+    for sched in ('fwd', 'bwd'):
+        A = S if sched == 'fwd' else S + 21 * DAY
+        for eattrs in ({}, {'start': A + 30 * DAY}, {'end': A + 31 * DAY}, {'estimate': 4}):
+            for par, tgt in (((None,), 0), ((None, 0), 0), ((None, 0), 1), ((None, 0, 1), 0), ((None, 0, 1), 1), ((None, 0, 1), 2),
+                             ((None, 0, None), 0), ((None, 0, None), 2)):
+                lv = [i for i in range(len(par)) if is_leaf(par, i)]
+                attrs = {i: {'estimate': 4, 'resource': 'A'} for i in lv}
+                for bal in (True, False):
+                    yield Scenario(sched, bal, A, mk_tasks(par, attrs), [], ext=[(50, dict(eattrs))],
+                                   ext_links=[(('x', tgt), ('e', 0))], layer='L5'), None
+                    if len(par) > 1:
+                        # ... together with an internal link into / out of the linked task
+                        other = (tgt + 1) % len(par)
+                        il = [(other, tgt)] if sched == 'fwd' else [(tgt, other)]
+                        if not direct_cycle(len(par), il) and not leaf_cycle(par, il) and other not in ancestors(par, tgt) \
+                                and tgt not in ancestors(par, other):
+                            yield Scenario(sched, bal, A, mk_tasks(par, attrs), il, ext=[(50, dict(eattrs))],
+                                           ext_links=[(('x', tgt), ('e', 0))], layer='L5'), None
     # two broken external links whose ids cannot be compared with each other (diagnosis must still be a RuntimeError)
     for sched in ('fwd', 'bwd'):
         A = S if sched == 'fwd' else S + 21 * DAY
@@ -525,3 +545,77 @@ def L6(tier, include_cycles=False):
                             sc = Scenario(sched, bal, A, mk_tasks(par, attrs), list(il), ext=[(eid, dict(ed))],
                                           ext_links=el, clock=clock, layer='L6c' if cyc else 'L6')
                             yield sc
+
+
+L8_SHAPES = [
+    (None, 0, 0, None),        # summary with two children and an outside root
+    (None, 0, 1, None),        # three levels and an outside root
+    (None, 0, 0, 0),           # three siblings
+    (None, None, None, None),  # four roots
+    (None, 0, None, 2),        # two summaries with one child each
+]
+
+
+def L8(tier, scheds=('fwd', 'bwd'), balances=(True, False)):
+    """Mixed layer: hierarchy x links x competition on TWO resources with different calendars x one leaf with recorded progress,
+    an earliest start or (forward) a fixed start. Every feature is covered alone by L1-L3; this layer covers their interaction
+    (e.g. a task waiting for a summary whose children compete for a part-time resource)."""
+    variants = [{}, {'spent': 3}, {'min_start': 2}, {'start': 1}]
+    cal_pairs = [('half', 'none'), ('sparse', 'holidays')]
+    k = 0
+    for par in L8_SHAPES:
+        n = len(par)
+        lv = [i for i in range(n) if is_leaf(par, i)]
+        for links in link_sets(par, 2):
+            if direct_cycle(n, links) or leaf_cycle(par, links):
+                continue
+            for rbits in range(1, 2 ** (len(lv) - 1)):  # first leaf on A; at least one leaf on B
+                res = {i: ('B' if j and (rbits >> (j - 1)) & 1 else 'A') for j, i in enumerate(lv)}
+                for ests in ((12, 2.5, 20, 4), (4, 12, 2.5, 20)):
+                    for vi, var in enumerate(variants):
+                        for target in (lv[0], lv[-1]):
+                            if not var and target != lv[0]:
+                                continue
+                            for cp in cal_pairs:
+                                for sched in scheds:
+                                    if 'start' in var and sched != 'fwd':
+                                        continue
+                                    for bal in balances:
+                                        k += 1
+                                        if tier == 'quick' and k % 9:
+                                            continue
+                                        A = MON if sched == 'fwd' else MON + 28 * DAY
+                                        attrs = {i: {'estimate': ests[j], 'resource': res[i]} for j, i in enumerate(lv)}
+                                        extra = {}
+                                        if 'spent' in var:
+                                            extra = {'spent': 3}
+                                        elif 'min_start' in var:
+                                            extra = {'min_start': A + 2 * DAY + H9 if sched == 'fwd' else A - 20 * DAY}
+                                        elif 'start' in var:
+                                            extra = {'start': A + DAY + timedelta(hours=10, minutes=30)}
+                                        attrs[target].update(extra)
+                                        yield Scenario(sched, bal, A, mk_tasks(par, attrs), list(links),
+                                                       cals={'A': cp[0], 'B': cp[1]}, layer='L8')
+
+
+def L2m(tier, scheds=('fwd',)):
+    """Milestones that carry recorded dates (a plan that was scheduled before, then re-planned): three flat tasks, every acyclic set
+    of <= 2 links, every task a leaf with open work, a plain milestone or a milestone with a recorded end / start and end in the
+    past; at least one milestone with recorded dates. (A milestone is always placed anew: its recorded dates fix nothing.)"""
+    for sched in scheds:
+        S = MON if sched == 'fwd' else MON + 21 * DAY
+        menu = [{'estimate': 4, 'resource': 'A'}, {'estimate': 12, 'resource': 'B'}, {'milestone': True},
+                {'milestone': True, 'end': S - 4 * DAY}, {'milestone': True, 'start': S - 6 * DAY, 'end': S - 4 * DAY, 'estimate': 3}]
+        par = (None, None, None)
+        for links in link_sets(par, 2):
+            if direct_cycle(3, links) or leaf_cycle(par, links):
+                continue
+            for combo in itertools.product(range(len(menu)), repeat=3):
+                if not any(c >= 3 for c in combo):
+                    continue
+                if tier == 'quick' and not links:
+                    continue
+                attrs = {i: dict(menu[c]) for i, c in enumerate(combo)}
+                for bal in (True, False):
+                    for clock in ((S - 30 * DAY, S + DAY + H9) if sched == 'fwd' else (S - 30 * DAY,)):
+                        yield Scenario(sched, bal, S, mk_tasks(par, attrs), list(links), clock=clock, layer='L2m')
